@@ -393,13 +393,14 @@ impl Installation {
         {
             let mut index_manager = self.index_manager.write().await;
             index_manager.add_entry(&encoding_key, archive_id, archive_offset, size)?;
-
-            // Persist the updated index (as `DynamicContainer::write` does).
-            // The installation has no other save/close hook, so without this
-            // no .idx file is ever written and nothing written here can be
-            // found again after `open()` + `initialize()`.
-            index_manager.save_all()?;
         }
+
+        // Persist the updated index (as `DynamicContainer::write` does, under
+        // the shared lock so that readers are not blocked by the file I/O).
+        // The installation has no other save/close hook, so without this no
+        // .idx file is ever written and nothing written here can be found
+        // again after `open()` + `initialize()`.
+        self.index_manager.read().await.save_all()?;
 
         info!(
             "Wrote file to archive {} at offset {} (content key: {}, encoding key: {})",
